@@ -1,5 +1,846 @@
-import Bkl
+/-
+  C02 — "Stream layering targets the right documents and treats each independently".
+
+  The first section is a *specification* of which documents a new document (the "patch") is
+  layered onto, written from the documentation and independent of `mergeDocument`'s control
+  flow.  The theorems say that `mergeDocument` (Bkl/Parser.lean, mirroring parser.go) selects
+  exactly those documents, merges the patch body into each of them separately (the new data of
+  a selected document is `merge ownData body`), leaves every other document alone, and fails
+  as a whole when one target's merge fails.
+-/
+import BklProofs.Lemmas.Parser
+import BklProofs.Lemmas.Merge
+import BklProofs.Lemmas.Order
+import BklProofs.Lemmas.Process1
 namespace Bkl
-/-- placeholder until the property theorems land -/
-theorem C02_placeholder : validate (.int 1) = .ok () := by simp [validate]; rfl
+
+/-! ## Specification of the selection -/
+
+/-- the parser state with the patch's own parents registered -/
+def registered (st : PState) (patch : Doc) : PState :=
+  { st with known := addParents st.known patch.id patch.parents }
+
+/-- `id` is a (transitive) ancestor of the patch.  Computed with the parser's fuel-bounded
+    `allParents`; `C02_ancestor_iff` below shows that this is exactly reachability from the
+    patch's direct parents along recorded parent links (`Ancestor`, Lemmas/Parser.lean). -/
+def isAncestorOf (st0 : PState) (patch : Doc) (id : String) : Bool :=
+  (allParents st0.known (st0.known.length + 1) patch.parents).contains id
+
+/-- the ids of the documents satisfying `p`, in document order -/
+def idsWhere (st : PState) (p : String → Val → Bool) : List String :=
+  (st.docs.filter fun d => p d.1 d.2).map (·.1)
+
+/-- the `$match` directive of a patch: its pattern and the body (the patch minus `$match`) -/
+def matchDirective : Val → Option (Val × Val)
+  | .map kvs => (fget kvs "$match").map fun pat => (pat, .map (fdel kvs "$match"))
+  | _ => none
+
+inductive Selection where
+  /-- a new document `(newId, body)` is added at the end of the stream -/
+  | append (newId : String) (body : Val)
+  /-- `body` is merged into each of the documents `targets` -/
+  | merge (targets : List String) (body : Val)
+  /-- a non-null `$match` matched nothing: error -/
+  | noMatch
+  deriving DecidableEq, Repr
+
+/-- The selection, as documented:
+    * `$match: null` → append;
+    * `$match: pat` → the ancestors that match; if none, all documents that match; if none, error;
+    * otherwise → the ancestors; if none, append. -/
+def selectionOf (st : PState) (patch : Doc) : Selection :=
+  let st0 := registered st patch
+  match matchDirective patch.data with
+  | some (pat, body) =>
+    if pat = .null then .append (patch.id ++ "|matchnull") body
+    else
+      let ancestorsMatching := idsWhere st0 fun id d => isAncestorOf st0 patch id && matchV d pat
+      let allMatching := idsWhere st0 fun _ d => matchV d pat
+      if ancestorsMatching ≠ [] then .merge ancestorsMatching body
+      else if allMatching ≠ [] then .merge allMatching body
+      else .noMatch
+  | none =>
+    let ancestors := idsWhere st0 fun id _ => isAncestorOf st0 patch id
+    if ancestors ≠ [] then .merge ancestors patch.data
+    else .append patch.id patch.data
+
+/-- the parents recorded for the patch by a selection (besides its own direct parents) -/
+def Selection.linked (patchId : String) : Selection → List String
+  | .append newId _ => if newId = patchId then [] else [newId]
+  | .merge targets _ => targets
+  | .noMatch => []
+
+/-- the documents a selection merges into -/
+def Selection.targets : Selection → List String
+  | .merge targets _ => targets
+  | _ => []
+
+/-- the ids a selection adds at the end of the stream -/
+def Selection.newIds : Selection → List String
+  | .append newId _ => [newId]
+  | _ => []
+
+/-- "the patch makes the same selection in both streams, at every step of the run" -/
+def SameSelections : PState → PState → List Doc → Prop
+  | _, _, [] => True
+  | s₁, s₂, p :: ps =>
+    selectionOf s₁ p = selectionOf s₂ p ∧
+      ∀ s₁' s₂', mergeDocument s₁ p = .ok s₁' → mergeDocument s₂ p = .ok s₂' →
+        SameSelections s₁' s₂' ps
+
+/-! ### witnesses used by the non-vacuity examples -/
+
+/-- two scalar documents `a`, `b` -/
+def C02_st : PState :=
+  { docs := [("a", .int 1), ("b", .int 2)], known := [("a", []), ("b", [])] }
+/-- a layer on top of `a` -/
+def C02_patch : Doc := { id := "c", parents := ["a"], data := .int 5 }
+def C02_st' : PState :=
+  { docs := [("a", .int 5), ("b", .int 2)], known := [("a", []), ("b", []), ("c", ["a", "a"])] }
+
+/-- two map documents -/
+def C02_mst : PState :=
+  { docs := [("a", .map [("x", .int 1)]), ("b", .map [("x", .int 2)])],
+    known := [("a", []), ("b", [])] }
+/-- a parentless patch selecting `x: 1` by `$match` -/
+def C02_mpatch : Doc :=
+  { id := "c", parents := [], data := .map [("$match", .map [("x", .int 1)]), ("y", .int 2)] }
+def C02_mst' : PState :=
+  { docs := [("a", .map [("x", .int 1), ("y", .int 2)]), ("b", .map [("x", .int 2)])],
+    known := [("a", []), ("b", []), ("c", ["a"])] }
+
+theorem C02_sel_example : selectionOf C02_st C02_patch = .merge ["a"] (.int 5) := by decide
+theorem C02_msel_example :
+    selectionOf C02_mst C02_mpatch = .merge ["a"] (.map [("y", .int 2)]) := by decide
+
+/-! ## "ancestor" means: reachable along parent links -/
+
+/-- `isAncestorOf` is the reflexive-transitive closure of the recorded `Parents` links, started
+    at the patch's direct parents:
+    `Ancestor known direct x` is generated by `x ∈ direct → Ancestor x` and
+    `Ancestor p → x ∈ lookupParents known p → Ancestor x`.
+    (So the fuel `known.length + 1` in `parentsOf` never cuts the closure short.) -/
+theorem C02_ancestor_iff (st0 : PState) (patch : Doc) (id : String) :
+    isAncestorOf st0 patch id = true ↔ Ancestor st0.known patch.parents id := by
+  unfold isAncestorOf
+  rw [List.contains_iff_mem]
+  exact mem_allParents_iff_ancestor _ _ _
+
+/-! ## The selection made by `mergeDocument` is the specified one -/
+
+/-- `mergeDocument` = "compute the specified selection, then apply it". -/
+theorem C02_selection (st : PState) (patch : Doc) :
+    mergeDocument st patch =
+      match selectionOf st patch with
+      | .noMatch => .error .noMatchFound
+      | .append newId body =>
+        .ok { docs := st.docs ++ [(newId, body)],
+              known := addParents (registered st patch).known patch.id
+                (if newId = patch.id then [] else [newId]) }
+      | .merge targets body => mergeInto (registered st patch) patch.id targets body := by
+  have hdflt : ∀ data : Val,
+      (if (parentsOf (registered st patch) patch.parents).isEmpty then
+          (pure { registered st patch with
+                    docs := (registered st patch).docs ++ [(patch.id, data)] } : R PState)
+        else mergeInto (registered st patch) patch.id
+              (parentsOf (registered st patch) patch.parents) data) =
+      match (if idsWhere (registered st patch)
+                  (fun id _ => isAncestorOf (registered st patch) patch id) ≠ [] then
+               Selection.merge (idsWhere (registered st patch)
+                  (fun id _ => isAncestorOf (registered st patch) patch id)) data
+             else Selection.append patch.id data) with
+      | .noMatch => .error .noMatchFound
+      | .append newId body =>
+        .ok { docs := st.docs ++ [(newId, body)],
+              known := addParents (registered st patch).known patch.id
+                (if newId = patch.id then [] else [newId]) }
+      | .merge targets body => mergeInto (registered st patch) patch.id targets body := by
+    intro data
+    have hp : idsWhere (registered st patch)
+        (fun id _ => isAncestorOf (registered st patch) patch id) =
+        parentsOf (registered st patch) patch.parents := rfl
+    rw [hp]
+    cases hts : parentsOf (registered st patch) patch.parents with
+    | nil =>
+      simp only [List.isEmpty_nil, if_true, ne_eq, not_true_eq_false, if_false]
+      have hk : addParents (registered st patch).known patch.id [] = (registered st patch).known :=
+        addParents_nil_of_any _ _ (addParents_any_self st.known patch.id patch.parents)
+      rw [hk]
+      rfl
+    | cons t ts => simp
+  unfold mergeDocument selectionOf
+  cases hd : patch.data with
+  | map kvs =>
+    simp only [matchDirective]
+    cases hg : fget kvs "$match" with
+    | none =>
+      simp only [Option.map_none]
+      exact hdflt _
+    | some pat =>
+      simp only [Option.map_some]
+      by_cases hp : pat = .null
+      · subst hp
+        simp only [Val.isNull, if_true, append_matchnull_ne, if_false]
+        rfl
+      · have hn : pat.isNull = false := by
+          cases pat <;> simp [Val.isNull] at hp ⊢
+        simp only [hn, if_neg hp, Bool.false_eq_true, if_false]
+        have hfm : findMatches (registered st patch) patch.parents pat =
+            if idsWhere (registered st patch)
+                (fun id d => isAncestorOf (registered st patch) patch id && matchV d pat) ≠ [] then
+              idsWhere (registered st patch)
+                (fun id d => isAncestorOf (registered st patch) patch id && matchV d pat)
+            else idsWhere (registered st patch) (fun _ d => matchV d pat) :=
+          findMatches_eq _ _ _
+        rw [show ({ docs := st.docs, known := addParents st.known patch.id patch.parents } : PState)
+              = registered st patch from rfl, hfm]
+        by_cases ha : idsWhere (registered st patch)
+            (fun id d => isAncestorOf (registered st patch) patch id && matchV d pat) = []
+        · simp only [ha, ne_eq, not_true_eq_false, if_false]
+          by_cases hb : idsWhere (registered st patch) (fun _ d => matchV d pat) = []
+          · simp only [hb, List.isEmpty_nil, if_true, not_true_eq_false, if_false]
+            rfl
+          · have hb' : (idsWhere (registered st patch) (fun _ d => matchV d pat)).isEmpty = false :=
+              (isEmpty_eq_false_iff_ne_nil _).2 hb
+            simp only [hb', hb, not_false_eq_true, if_true, Bool.false_eq_true, if_false]
+        · have ha' : (idsWhere (registered st patch) (fun id d =>
+              isAncestorOf (registered st patch) patch id && matchV d pat)).isEmpty = false :=
+            (isEmpty_eq_false_iff_ne_nil _).2 ha
+          simp only [ne_eq, ha, not_false_eq_true, if_true, ha', Bool.false_eq_true, if_false]
+  | null => exact hdflt _
+  | bool b => exact hdflt _
+  | int n => exact hdflt _
+  | flt f => exact hdflt _
+  | str s => exact hdflt _
+  | list xs => exact hdflt _
+
+theorem C02_selection_noMatch {st : PState} {patch : Doc} (h : selectionOf st patch = .noMatch) :
+    mergeDocument st patch = .error .noMatchFound := by
+  rw [C02_selection, h]
+
+theorem C02_selection_append {st : PState} {patch : Doc} {newId : String} {body : Val}
+    (h : selectionOf st patch = .append newId body) :
+    mergeDocument st patch =
+      .ok { docs := st.docs ++ [(newId, body)],
+            known := addParents (registered st patch).known patch.id
+              (if newId = patch.id then [] else [newId]) } := by
+  rw [C02_selection, h]
+
+theorem C02_selection_merge {st : PState} {patch : Doc} {targets : List String} {body : Val}
+    (h : selectionOf st patch = .merge targets body) :
+    mergeDocument st patch = mergeInto (registered st patch) patch.id targets body := by
+  rw [C02_selection, h]
+
+example : selectionOf C02_st C02_patch = .merge ["a"] (.int 5) := C02_sel_example
+example : selectionOf C02_st { id := "c", parents := [], data := .int 5 } =
+    .append "c" (.int 5) := by decide
+example : selectionOf C02_mst
+    { id := "c", parents := [], data := .map [("$match", .map [("x", .int 3)])] } = .noMatch := by
+  decide
+
+/-! ## C02_targets: every document gets `merge ownData body` if selected, else stays -/
+
+/-- Merge case, by position: the stream keeps its length; the document at position `i` keeps
+    its id; its new data is `merge d body` if its id is selected and `d` otherwise. -/
+theorem C02_targets {st st' : PState} {patch : Doc} {targets : List String} {body : Val}
+    (hm : mergeDocument st patch = .ok st') (hs : selectionOf st patch = .merge targets body) :
+    st'.docs.length = st.docs.length ∧
+      ∀ (i : Nat) (id : String) (d : Val), st.docs[i]? = some (id, d) →
+        ∃ d', st'.docs[i]? = some (id, d') ∧
+          (if id ∈ targets then merge d body = .ok d' else d' = d) := by
+  rw [C02_selection_merge hs, mergeInto_ok_iff] at hm
+  obtain ⟨hf, _⟩ := hm
+  refine ⟨(forall₂_length hf).symm, ?_⟩
+  intro i id d hi
+  obtain ⟨⟨id', d'⟩, hb, he, hr⟩ := forall₂_getElem? hf i hi
+  simp only at he hr
+  subst he
+  exact ⟨d', hb, hr⟩
+
+/-- Merge case, as one equation: the new stream is the old one with `merge · body` applied to
+    the data of the selected documents — and all of these merges succeed. -/
+theorem C02_targets_map {st st' : PState} {patch : Doc} {targets : List String} {body : Val}
+    (hm : mergeDocument st patch = .ok st') (hs : selectionOf st patch = .merge targets body) :
+    (∀ p ∈ st.docs, p.1 ∈ targets → ∃ v, merge p.2 body = .ok v) ∧
+      st'.docs = st.docs.map fun p =>
+        (p.1, if p.1 ∈ targets then (match merge p.2 body with | .ok v => v | .error _ => p.2)
+              else p.2) := by
+  rw [C02_selection_merge hs, mergeInto_ok_iff] at hm
+  obtain ⟨hf, _⟩ := hm
+  refine ⟨?_, forall2_stepRel_eq_map hf⟩
+  intro p hp ht
+  obtain ⟨b, _, _, hr⟩ := forall₂_mem_left hf hp
+  rw [if_pos ht] at hr
+  exact ⟨b.2, hr⟩
+
+/-- Merge case: the step succeeds exactly when the merge into every selected document does. -/
+theorem C02_targets_ok_iff {st : PState} {patch : Doc} {targets : List String} {body : Val}
+    (hs : selectionOf st patch = .merge targets body) :
+    (∃ st', mergeDocument st patch = .ok st') ↔
+      ∀ p ∈ st.docs, p.1 ∈ targets → ∃ v, merge p.2 body = .ok v := by
+  constructor
+  · rintro ⟨st', hm⟩
+    exact (C02_targets_map hm hs).1
+  · intro h
+    refine ⟨{ docs := st.docs.map (stepFun targets body),
+              known := addParents (registered st patch).known patch.id targets }, ?_⟩
+    rw [C02_selection_merge hs, mergeInto_ok_iff]
+    exact ⟨forall2_stepRel_of_ok h, rfl⟩
+
+/-- Append cases: exactly one new document, holding the body, at the end. -/
+theorem C02_targets_append {st st' : PState} {patch : Doc} {newId : String} {body : Val}
+    (hm : mergeDocument st patch = .ok st') (hs : selectionOf st patch = .append newId body) :
+    st'.docs = st.docs ++ [(newId, body)] := by
+  rw [C02_selection_append hs] at hm
+  cases hm; rfl
+
+/-- the example: `c` (parent `a`) is merged into `a` only -/
+theorem C02_run_example : mergeDocument C02_st C02_patch = .ok C02_st' := by
+  rw [C02_selection_merge C02_sel_example, mergeInto_ok_iff]
+  refine ⟨Forall2.cons ⟨rfl, ?_⟩ (Forall2.cons ⟨rfl, ?_⟩ Forall2.nil), by decide⟩
+  · rw [if_pos (by decide)]
+    show Bkl.merge (.int 1) (.int 5) = .ok (.int 5)
+    rw [merge_scalar _ _ rfl]; rfl
+  · rw [if_neg (by decide)]
+
+example : mergeDocument C02_st C02_patch = .ok C02_st' ∧
+    selectionOf C02_st C02_patch = .merge ["a"] (.int 5) := ⟨C02_run_example, C02_sel_example⟩
+
+/-- the `$match` example: the parentless patch is merged into the one document it matches -/
+theorem C02_mrun_example : mergeDocument C02_mst C02_mpatch = .ok C02_mst' := by
+  rw [C02_selection_merge C02_msel_example, mergeInto_ok_iff]
+  refine ⟨Forall2.cons ⟨rfl, ?_⟩ (Forall2.cons ⟨rfl, ?_⟩ Forall2.nil), by decide⟩
+  · rw [if_pos (by decide)]
+    show Bkl.merge (.map [("x", .int 1)]) (.map [("y", .int 2)]) =
+      .ok (.map [("x", .int 1), ("y", .int 2)])
+    rw [merge_map_map, mergeMapMap_noreplace (by decide), mergeFields_cons]
+    have h1 : ((Val.int 2).toStr = "$delete") = False := by decide
+    have h2 : fget [("x", Val.int 1)] "y" = none := by decide
+    simp only [h1, if_false, h2, mergeFields_nil]
+    rfl
+  · rw [if_neg (by decide)]
+
+example : mergeDocument C02_mst C02_mpatch = .ok C02_mst' ∧
+    selectionOf C02_mst C02_mpatch = .merge ["a"] (.map [("y", .int 2)]) :=
+  ⟨C02_mrun_example, C02_msel_example⟩
+
+/-- the recorded parents of the patch: its own, plus what it was layered onto -/
+theorem C02_known {st st' : PState} {patch : Doc} (hm : mergeDocument st patch = .ok st') :
+    st'.known = addParents (addParents st.known patch.id patch.parents) patch.id
+      ((selectionOf st patch).linked patch.id) := by
+  rw [C02_selection] at hm
+  cases hs : selectionOf st patch with
+  | noMatch => rw [hs] at hm; cases hm
+  | append newId body => rw [hs] at hm; cases hm; rfl
+  | merge targets body =>
+    rw [hs] at hm
+    exact ((mergeInto_ok_iff _ _ _ _ _).1 hm).2
+
+/-- the ids of the stream: unchanged, or one new id at the end -/
+theorem C02_ids {st st' : PState} {patch : Doc} (hm : mergeDocument st patch = .ok st') :
+    st'.docs.map (·.1) = st.docs.map (·.1) ++ (selectionOf st patch).newIds := by
+  rw [C02_selection] at hm
+  cases hs : selectionOf st patch with
+  | noMatch => rw [hs] at hm; cases hm
+  | append newId body =>
+    rw [hs] at hm; cases hm
+    simp [Selection.newIds]
+  | merge targets body =>
+    rw [hs] at hm
+    rw [forall₂_stepRel_ids ((mergeInto_ok_iff _ _ _ _ _).1 hm).1]
+    simp [Selection.newIds, registered]
+
+/-! ## C02_frame / C02_order -/
+
+/-- Documents that are not selected are the same before and after, at the same position. -/
+theorem C02_frame {st st' : PState} {patch : Doc} (hm : mergeDocument st patch = .ok st')
+    {i : Nat} {id : String} {d : Val} (hi : st.docs[i]? = some (id, d))
+    (hn : id ∉ (selectionOf st patch).targets) : st'.docs[i]? = some (id, d) := by
+  cases hs : selectionOf st patch with
+  | noMatch => rw [C02_selection_noMatch hs] at hm; cases hm
+  | append newId body =>
+    rw [C02_targets_append hm hs]
+    have hlt : i < st.docs.length := (List.getElem?_eq_some_iff.1 hi).1
+    rw [List.getElem?_append_left hlt, hi]
+  | merge targets body =>
+    rw [hs] at hn
+    have hn' : id ∉ targets := hn
+    obtain ⟨d', h1, h2⟩ := (C02_targets hm hs).2 i id d hi
+    rw [if_neg hn'] at h2
+    rw [h1, h2]
+
+/-- membership form of the frame property -/
+theorem C02_frame_mem {st st' : PState} {patch : Doc} (hm : mergeDocument st patch = .ok st')
+    {id : String} {d : Val} (hd : (id, d) ∈ st.docs)
+    (hn : id ∉ (selectionOf st patch).targets) : (id, d) ∈ st'.docs := by
+  obtain ⟨i, hi⟩ := List.mem_iff_getElem?.1 hd
+  exact List.mem_iff_getElem?.2 ⟨i, C02_frame hm hi hn⟩
+
+example : mergeDocument C02_st C02_patch = .ok C02_st' ∧ C02_st.docs[1]? = some ("b", .int 2) ∧
+    "b" ∉ (selectionOf C02_st C02_patch).targets :=
+  ⟨C02_run_example, rfl, by decide⟩
+
+/-- Ids keep their order; the stream only grows at the end, by at most one document. -/
+theorem C02_order {st st' : PState} {patch : Doc} (hm : mergeDocument st patch = .ok st') :
+    st.docs.map (·.1) <+: st'.docs.map (·.1) ∧
+      st.docs.length ≤ st'.docs.length ∧ st'.docs.length ≤ st.docs.length + 1 := by
+  have h := C02_ids hm
+  refine ⟨⟨_, h.symm⟩, ?_⟩
+  have hl := congrArg List.length h
+  simp only [List.length_map, List.length_append] at hl
+  have : (selectionOf st patch).newIds.length ≤ 1 := by
+    cases selectionOf st patch <;> simp [Selection.newIds]
+  omega
+
+/-! ## C02_local: the new data of a document depends on its own data and the patch only -/
+
+/-- The new document at position `i` is a function of the old document at position `i`, the
+    selected ids and the patch body — no other document's data occurs in it. -/
+theorem C02_local {st st' : PState} {patch : Doc} {targets : List String} {body : Val}
+    (hm : mergeDocument st patch = .ok st') (hs : selectionOf st patch = .merge targets body)
+    {i : Nat} {id : String} {d : Val} (hi : st.docs[i]? = some (id, d)) :
+    st'.docs[i]? = some (id, if id ∈ targets then
+        (match merge d body with | .ok v => v | .error _ => d) else d) := by
+  rw [(C02_targets_map hm hs).2, List.getElem?_map, hi]
+  rfl
+
+example : mergeDocument C02_mst C02_mpatch = .ok C02_mst' ∧
+    selectionOf C02_mst C02_mpatch = .merge ["a"] (.map [("y", .int 2)]) ∧
+    C02_mst.docs[1]? = some ("b", .map [("x", .int 2)]) :=
+  ⟨C02_mrun_example, C02_msel_example, rfl⟩
+
+/-- Two streams of the same length for which the patch makes the same selection, and which
+    hold the same document at position `i`: after the step they still hold the same document
+    at position `i` — whatever the *other* documents are. -/
+theorem C02_noninterference_step {st₁ st₂ st₁' st₂' : PState} {patch : Doc}
+    (hlen : st₁.docs.length = st₂.docs.length)
+    (hsel : selectionOf st₁ patch = selectionOf st₂ patch)
+    (h₁ : mergeDocument st₁ patch = .ok st₁') (h₂ : mergeDocument st₂ patch = .ok st₂')
+    {i : Nat} (hi : st₁.docs[i]? = st₂.docs[i]?) : st₁'.docs[i]? = st₂'.docs[i]? := by
+  cases hs : selectionOf st₁ patch with
+  | noMatch => rw [C02_selection_noMatch hs] at h₁; cases h₁
+  | append newId body =>
+    rw [C02_targets_append h₁ hs, C02_targets_append h₂ (hsel ▸ hs)]
+    rw [List.getElem?_append, List.getElem?_append, hlen, hi]
+  | merge targets body =>
+    have hs₂ : selectionOf st₂ patch = .merge targets body := hsel ▸ hs
+    obtain ⟨hl₁, ht₁⟩ := C02_targets h₁ hs
+    obtain ⟨hl₂, ht₂⟩ := C02_targets h₂ hs₂
+    cases hd : st₁.docs[i]? with
+    | none =>
+      have hd₂ : st₂.docs[i]? = none := hi ▸ hd
+      rw [List.getElem?_eq_none_iff] at hd hd₂
+      rw [List.getElem?_eq_none_iff.2 (by omega), List.getElem?_eq_none_iff.2 (by omega)]
+    | some p =>
+      obtain ⟨id, d⟩ := p
+      obtain ⟨d₁, e₁, r₁⟩ := ht₁ i id d hd
+      obtain ⟨d₂, e₂, r₂⟩ := ht₂ i id d (hi ▸ hd)
+      rw [e₁, e₂]
+      by_cases ht : id ∈ targets
+      · rw [if_pos ht] at r₁ r₂
+        rw [r₁] at r₂; cases r₂; rfl
+      · rw [if_neg ht] at r₁ r₂
+        rw [r₁, r₂]
+
+/-- the same patch on a stream whose *other* document differs: same selection, same `a` -/
+example :
+    let st₂ : PState := { docs := [("a", .int 1), ("b", .int 7)], known := [("a", []), ("b", [])] }
+    C02_st.docs.length = st₂.docs.length ∧
+    selectionOf C02_st C02_patch = selectionOf st₂ C02_patch ∧
+    C02_st.docs[0]? = st₂.docs[0]? ∧ C02_st.docs[1]? ≠ st₂.docs[1]? := by decide
+
+/-! ## C02_singleton: a selected document receives what it would receive alone -/
+
+/-- The new data of a selected document is the result of the one-document merge
+    `merge d body` — no other document's data occurs. -/
+theorem C02_singleton {st st' : PState} {patch : Doc} {targets : List String} {body : Val}
+    (hm : mergeDocument st patch = .ok st') (hs : selectionOf st patch = .merge targets body)
+    {i : Nat} {id : String} {d : Val} (hi : st.docs[i]? = some (id, d)) (ht : id ∈ targets) :
+    ∃ d', merge d body = .ok d' ∧ st'.docs[i]? = some (id, d') := by
+  obtain ⟨d', h1, h2⟩ := (C02_targets hm hs).2 i id d hi
+  rw [if_pos ht] at h2
+  exact ⟨d', h2, h1⟩
+
+theorem C02_singleton_mem {st st' : PState} {patch : Doc} {targets : List String} {body : Val}
+    (hm : mergeDocument st patch = .ok st') (hs : selectionOf st patch = .merge targets body)
+    {id : String} {d : Val} (hd : (id, d) ∈ st.docs) (ht : id ∈ targets) :
+    ∃ d', merge d body = .ok d' ∧ (id, d') ∈ st'.docs := by
+  obtain ⟨i, hi⟩ := List.mem_iff_getElem?.1 hd
+  obtain ⟨d', h1, h2⟩ := C02_singleton hm hs hi ht
+  exact ⟨d', h1, List.mem_iff_getElem?.2 ⟨i, h2⟩⟩
+
+example : mergeDocument C02_st C02_patch = .ok C02_st' ∧
+    selectionOf C02_st C02_patch = .merge ["a"] (.int 5) ∧
+    C02_st.docs[0]? = some ("a", .int 1) ∧ "a" ∈ ["a"] :=
+  ⟨C02_run_example, C02_sel_example, rfl, by decide⟩
+
+/-- Literally "the result it would receive if it were the only document in the stream"
+    (ids pairwise distinct): running the same patch on the one-document stream `[(id, d)]`
+    (same recorded parents) succeeds, selects that document, and yields exactly the data `d'`
+    that document `id` has after the step on the full stream. -/
+theorem C02_singleton_stream {st st' : PState} {patch : Doc} {targets : List String} {body : Val}
+    (hm : mergeDocument st patch = .ok st') (hs : selectionOf st patch = .merge targets body)
+    (hnd : (st.docs.map (·.1)).Nodup)
+    {i : Nat} {id : String} {d : Val} (hi : st.docs[i]? = some (id, d)) (ht : id ∈ targets) :
+    ∃ d' known', mergeDocument { docs := [(id, d)], known := st.known } patch =
+        .ok { docs := [(id, d')], known := known' } ∧ st'.docs[i]? = some (id, d') := by
+  obtain ⟨d', hd', hi'⟩ := C02_singleton hm hs hi ht
+  have hmem : (id, d) ∈ st.docs := List.mem_of_getElem? hi
+  have key : ∀ q : String → Val → Bool, id ∈ idsWhere (registered st patch) q → q id d = true := by
+    intro q hq
+    unfold idsWhere at hq
+    rw [List.mem_map] at hq
+    obtain ⟨⟨id0, d0⟩, hf, he⟩ := hq
+    rw [List.mem_filter] at hf
+    simp only at he
+    subst he
+    have : d0 = d := distinctKeys_unique hnd hf.1 hmem
+    subst this
+    exact hf.2
+  have single : ∀ q : String → Val → Bool,
+      idsWhere (registered { docs := [(id, d)], known := st.known } patch) q =
+        if q id d then [id] else [] := by
+    intro q
+    simp only [idsWhere, registered, List.filter_cons, List.filter_nil]
+    cases q id d <;> rfl
+  have hanc : isAncestorOf (registered { docs := [(id, d)], known := st.known } patch) patch =
+      isAncestorOf (registered st patch) patch := rfl
+  have hs1 : selectionOf { docs := [(id, d)], known := st.known } patch = .merge [id] body := by
+    unfold selectionOf at hs ⊢
+    cases hmd : matchDirective patch.data with
+    | none =>
+      rw [hmd] at hs
+      simp only at hs ⊢
+      split at hs
+      · cases hs
+        rw [single, hanc, key _ ht]
+        simp
+      · cases hs
+    | some pb =>
+      obtain ⟨pat, b⟩ := pb
+      rw [hmd] at hs
+      simp only at hs ⊢
+      split at hs
+      · cases hs
+      · rename_i hp
+        rw [if_neg hp]
+        split at hs
+        · cases hs
+          rw [single, hanc, key _ ht]
+          simp
+        · split at hs
+          · cases hs
+            have hq : matchV d pat = true := key _ ht
+            rw [single, single, hq]
+            cases isAncestorOf (registered st patch) patch id <;> simp
+          · cases hs
+  refine ⟨d', addParents (registered st patch).known patch.id [id], ?_, hi'⟩
+  rw [C02_selection_merge hs1, mergeInto_eq]
+  have hstep : (registered { docs := [(id, d)], known := st.known } patch).docs.mapM
+      (mergeStep [id] body) = .ok [(id, d')] := by
+    show [(id, d)].mapM (mergeStep [id] body) = .ok [(id, d')]
+    rw [mapM_R_cons, mapM_R_nil]
+    simp [mergeStep, hd']
+  rw [hstep]
+  rfl
+
+example : mergeDocument C02_st C02_patch = .ok C02_st' ∧
+    selectionOf C02_st C02_patch = .merge ["a"] (.int 5) ∧ (C02_st.docs.map (·.1)).Nodup ∧
+    C02_st.docs[0]? = some ("a", .int 1) ∧ "a" ∈ ["a"] :=
+  ⟨C02_run_example, C02_sel_example, by decide, rfl, by decide⟩
+
+/-- Why `C02_singleton_stream` asks for distinct ids: the model (like `Parser.parents`)
+    identifies documents by id, so in a state with a duplicated id a `$match` hit on one copy
+    selects the other copy too.  (`C02_ids_unique_preserved`: such states do not arise from
+    fresh patch ids.) -/
+theorem C02_duplicate_ids_select_by_id :
+    let st : PState := { docs := [("a", .map [("x", .int 1)]), ("a", .map [("x", .int 2)])],
+                         known := [("a", [])] }
+    selectionOf st C02_mpatch = .merge ["a"] (.map [("y", .int 2)]) ∧
+    st.docs[1]? = some ("a", .map [("x", .int 2)]) ∧
+    matchV (.map [("x", .int 2)]) (.map [("x", .int 1)]) = false := by decide
+
+/-! ## The three special outcomes, from hypotheses on the input only -/
+
+/-- A non-null `$match` that matches no document is an error. -/
+theorem C02_error_no_match {st : PState} {patch : Doc} {kvs : Fields} {pat : Val}
+    (hd : patch.data = .map kvs) (hg : fget kvs "$match" = some pat) (hp : pat ≠ .null)
+    (hno : ∀ p ∈ st.docs, matchV p.2 pat = false) :
+    mergeDocument st patch = .error .noMatchFound := by
+  apply C02_selection_noMatch
+  have ha : idsWhere (registered st patch)
+      (fun id d => isAncestorOf (registered st patch) patch id && matchV d pat) = [] := by
+    unfold idsWhere
+    rw [List.map_eq_nil_iff, List.filter_eq_nil_iff]
+    intro a ha
+    simp [hno a ha]
+  have hb : idsWhere (registered st patch) (fun _ d => matchV d pat) = [] := by
+    unfold idsWhere
+    rw [List.map_eq_nil_iff, List.filter_eq_nil_iff]
+    intro a ha
+    simp [hno a ha]
+  unfold selectionOf
+  simp only [hd, matchDirective, hg, Option.map_some, if_neg hp, ha, hb, ne_eq,
+    not_true_eq_false, if_false]
+
+example :
+    let patch : Doc := { id := "c", parents := [], data := .map [("$match", .map [("x", .int 3)])] }
+    patch.data = .map [("$match", .map [("x", .int 3)])] ∧
+    fget [("$match", Val.map [("x", .int 3)])] "$match" = some (.map [("x", .int 3)]) ∧
+    Val.map [("x", .int 3)] ≠ .null ∧
+    ∀ p ∈ C02_mst.docs, matchV p.2 (.map [("x", .int 3)]) = false := by decide
+
+/-- `$match: null`: exactly one new document `id|matchnull` holding the body (the patch minus
+    `$match`) is added at the end; no existing document changes. -/
+theorem C02_match_null_appends {st : PState} {patch : Doc} {kvs : Fields}
+    (hd : patch.data = .map kvs) (hg : fget kvs "$match" = some .null) :
+    mergeDocument st patch =
+      .ok { docs := st.docs ++ [(patch.id ++ "|matchnull", .map (fdel kvs "$match"))],
+            known := addParents (addParents st.known patch.id patch.parents) patch.id
+              [patch.id ++ "|matchnull"] } := by
+  have hs : selectionOf st patch =
+      .append (patch.id ++ "|matchnull") (.map (fdel kvs "$match")) := by
+    unfold selectionOf
+    simp only [hd, matchDirective, hg, Option.map_some, if_true]
+  rw [C02_selection_append hs, if_neg (append_matchnull_ne _)]
+  rfl
+
+example : (Doc.mk "c" ["a"] (.map [("$match", .null), ("y", .int 2)])).data =
+      .map [("$match", .null), ("y", .int 2)] ∧
+    fget [("$match", Val.null), ("y", .int 2)] "$match" = some .null := by decide
+
+/-- No `$match` and no ancestor among the documents: the patch itself becomes a new document
+    at the end; no existing document changes. -/
+theorem C02_default_no_parents_appends {st : PState} {patch : Doc}
+    (hnm : matchDirective patch.data = none)
+    (hno : ∀ p ∈ st.docs, isAncestorOf (registered st patch) patch p.1 = false) :
+    mergeDocument st patch =
+      .ok { docs := st.docs ++ [(patch.id, patch.data)],
+            known := addParents st.known patch.id patch.parents } := by
+  have ha : idsWhere (registered st patch)
+      (fun id _ => isAncestorOf (registered st patch) patch id) = [] := by
+    unfold idsWhere
+    rw [List.map_eq_nil_iff, List.filter_eq_nil_iff]
+    intro a ha
+    simp [hno a ha]
+  have hs : selectionOf st patch = .append patch.id patch.data := by
+    unfold selectionOf
+    simp only [hnm, ha, ne_eq, not_true_eq_false, if_false]
+  rw [C02_selection_append hs, if_pos rfl]
+  have hk : addParents (registered st patch).known patch.id [] = (registered st patch).known :=
+    addParents_nil_of_any _ _ (addParents_any_self st.known patch.id patch.parents)
+  rw [hk]
+  rfl
+
+/-- in particular: a document without parents and without `$match` starts a new document -/
+theorem C02_default_root_appends {st : PState} {patch : Doc}
+    (hnm : matchDirective patch.data = none) (hp : patch.parents = []) :
+    mergeDocument st patch =
+      .ok { docs := st.docs ++ [(patch.id, patch.data)],
+            known := addParents st.known patch.id [] } := by
+  rw [C02_default_no_parents_appends hnm, hp]
+  intro p _
+  simp only [isAncestorOf, hp, allParents, List.flatMap_nil, List.append_nil,
+    List.contains_nil]
+
+example : matchDirective (Doc.mk "c" [] (.int 5)).data = none ∧
+    (Doc.mk "c" [] (.int 5)).parents = [] := by decide
+example : matchDirective (Doc.mk "c" ["zz"] (.int 5)).data = none ∧
+    ∀ p ∈ C02_st.docs, isAncestorOf (registered C02_st (Doc.mk "c" ["zz"] (.int 5)))
+      (Doc.mk "c" ["zz"] (.int 5)) p.1 = false := by decide
+
+/-! ## C02_merge_error_propagates: no silent skip -/
+
+/-- If the merge into some selected document fails, the whole step fails. -/
+theorem C02_merge_error_propagates {st : PState} {patch : Doc} {targets : List String}
+    {body : Val} (hs : selectionOf st patch = .merge targets body)
+    {id : String} {d : Val} {e : Err} (hd : (id, d) ∈ st.docs) (ht : id ∈ targets)
+    (he : merge d body = .error e) : ∃ e', mergeDocument st patch = .error e' := by
+  cases hm : mergeDocument st patch with
+  | error e' => exact ⟨e', rfl⟩
+  | ok st' =>
+    obtain ⟨v, hv⟩ := (C02_targets_map hm hs).1 (id, d) hd ht
+    rw [he] at hv; cases hv
+
+/-- … and the error reported is that of the first selected document (in document order) whose
+    merge fails. -/
+theorem C02_merge_error_first {st : PState} {patch : Doc} {targets : List String}
+    {body : Val} (hs : selectionOf st patch = .merge targets body) (e : Err) :
+    mergeDocument st patch = .error e ↔
+      ∃ before p after, st.docs = before ++ p :: after ∧
+        (∀ q ∈ before, q.1 ∈ targets → ∃ v, merge q.2 body = .ok v) ∧
+        p.1 ∈ targets ∧ merge p.2 body = .error e := by
+  rw [C02_selection_merge hs, mergeInto_error_iff, mapM_R_error_iff]
+  simp only [mergeStep_ok_iff', mergeStep_error_iff]
+  rfl
+
+/-- a stream where the patch `x: 1` cannot be layered onto `a` (`x: 1` already there) -/
+example :
+    let patch : Doc := { id := "c", parents := ["a"], data := .map [("x", .int 1)] }
+    selectionOf C02_mst patch = .merge ["a"] (.map [("x", .int 1)]) ∧
+    ("a", Val.map [("x", .int 1)]) ∈ C02_mst.docs ∧ "a" ∈ ["a"] ∧
+    merge (.map [("x", .int 1)]) (.map [("x", .int 1)]) = .error .uselessOverride :=
+  ⟨by decide, by decide, by decide, merge_x_x⟩
+
+/-! ## C02_noninterference: whole streams -/
+
+theorem C02_length {st st' : PState} {patch : Doc} (hm : mergeDocument st patch = .ok st') :
+    st'.docs.length = st.docs.length + (selectionOf st patch).newIds.length := by
+  have h := congrArg List.length (C02_ids hm)
+  simpa only [List.length_map, List.length_append] using h
+
+/-- Two runs of the same patch list (`runMerges` is defined in `Lemmas/Parser.lean` as
+    `ps.foldlM mergeDocument st`) from streams of the same length, in which every patch makes
+    the same selection: if the streams start with the same document at position `i`, they end
+    with the same document at position `i`.  The data of the *other* documents is unconstrained,
+    so it cannot influence document `i`. -/
+theorem C02_noninterference {ps : List Doc} : ∀ {st₁ st₂ f₁ f₂ : PState},
+    SameSelections st₁ st₂ ps → st₁.docs.length = st₂.docs.length →
+    runMerges st₁ ps = .ok f₁ → runMerges st₂ ps = .ok f₂ →
+    ∀ {i : Nat}, st₁.docs[i]? = st₂.docs[i]? → f₁.docs[i]? = f₂.docs[i]? := by
+  induction ps with
+  | nil =>
+    intro st₁ st₂ f₁ f₂ _ _ h₁ h₂ i hi
+    rw [runMerges_nil] at h₁ h₂
+    cases h₁; cases h₂; exact hi
+  | cons p ps ih =>
+    intro st₁ st₂ f₁ f₂ hsel hlen h₁ h₂ i hi
+    rw [runMerges_cons] at h₁ h₂
+    cases hm₁ : mergeDocument st₁ p with
+    | error e => rw [hm₁] at h₁; cases h₁
+    | ok s₁ =>
+      cases hm₂ : mergeDocument st₂ p with
+      | error e => rw [hm₂] at h₂; cases h₂
+      | ok s₂ =>
+        rw [hm₁] at h₁; rw [hm₂] at h₂
+        have hlen' : s₁.docs.length = s₂.docs.length := by
+          rw [C02_length hm₁, C02_length hm₂, hsel.1, hlen]
+        exact ih (hsel.2 s₁ s₂ hm₁ hm₂) hlen' h₁ h₂
+          (C02_noninterference_step hlen hsel.1 hm₁ hm₂ hi)
+
+/-- Without `$match` the selection is by ancestry only: it depends on the ids and on the
+    recorded parents, not on any document's data. -/
+theorem C02_selection_nomatch_congr {st₁ st₂ : PState} {patch : Doc}
+    (hnm : matchDirective patch.data = none)
+    (hids : st₁.docs.map (·.1) = st₂.docs.map (·.1)) (hk : st₁.known = st₂.known) :
+    selectionOf st₁ patch = selectionOf st₂ patch := by
+  have e₁ : idsWhere (registered st₁ patch)
+      (fun id _ => isAncestorOf (registered st₁ patch) patch id) =
+      (st₁.docs.map (·.1)).filter (fun id => isAncestorOf (registered st₁ patch) patch id) :=
+    filter_ids st₁.docs _
+  have e₂ : idsWhere (registered st₂ patch)
+      (fun id _ => isAncestorOf (registered st₂ patch) patch id) =
+      (st₂.docs.map (·.1)).filter (fun id => isAncestorOf (registered st₂ patch) patch id) :=
+    filter_ids st₂.docs _
+  have ea : isAncestorOf (registered st₁ patch) patch = isAncestorOf (registered st₂ patch) patch := by
+    funext id
+    simp only [isAncestorOf, registered, hk]
+  unfold selectionOf
+  simp only [hnm]
+  rw [e₁, e₂, ea, hids]
+
+theorem C02_sameSelections_nomatch {ps : List Doc} : ∀ {st₁ st₂ : PState},
+    (∀ p ∈ ps, matchDirective p.data = none) →
+    st₁.docs.map (·.1) = st₂.docs.map (·.1) → st₁.known = st₂.known →
+    SameSelections st₁ st₂ ps := by
+  induction ps with
+  | nil => intro _ _ _ _ _; trivial
+  | cons p ps ih =>
+    intro st₁ st₂ hnm hids hk
+    have hsel := C02_selection_nomatch_congr (hnm p List.mem_cons_self) hids hk
+    refine ⟨hsel, ?_⟩
+    intro s₁ s₂ hm₁ hm₂
+    refine ih (fun q hq => hnm q (List.mem_cons_of_mem _ hq)) ?_ ?_
+    · rw [C02_ids hm₁, C02_ids hm₂, hsel, hids]
+    · rw [C02_known hm₁, C02_known hm₂, hsel, hk]
+
+/-- `$match`-free streams: the final data of document `i` is a function of its initial data and
+    the patch list (given the ids and the parent table) — two runs that start with the same ids,
+    the same recorded parents and the same document at position `i` end with the same document
+    at position `i`, whatever the other documents hold. -/
+theorem C02_noninterference_nomatch {ps : List Doc} {st₁ st₂ f₁ f₂ : PState}
+    (hnm : ∀ p ∈ ps, matchDirective p.data = none)
+    (hids : st₁.docs.map (·.1) = st₂.docs.map (·.1)) (hk : st₁.known = st₂.known)
+    (h₁ : runMerges st₁ ps = .ok f₁) (h₂ : runMerges st₂ ps = .ok f₂)
+    {i : Nat} (hi : st₁.docs[i]? = st₂.docs[i]?) : f₁.docs[i]? = f₂.docs[i]? :=
+  C02_noninterference (C02_sameSelections_nomatch hnm hids hk)
+    (by simpa only [List.length_map] using congrArg List.length hids) h₁ h₂ hi
+
+/-- witnesses: a second stream that differs from `C02_st` in the *other* document `b` -/
+def C02_st₂ : PState :=
+  { docs := [("a", .int 1), ("b", .int 7)], known := [("a", []), ("b", [])] }
+def C02_st₂' : PState :=
+  { docs := [("a", .int 5), ("b", .int 7)], known := [("a", []), ("b", []), ("c", ["a", "a"])] }
+
+theorem C02_run_example₂ : mergeDocument C02_st₂ C02_patch = .ok C02_st₂' := by
+  rw [C02_selection_merge (show selectionOf C02_st₂ C02_patch = .merge ["a"] (.int 5) by decide),
+    mergeInto_ok_iff]
+  refine ⟨Forall2.cons ⟨rfl, ?_⟩ (Forall2.cons ⟨rfl, ?_⟩ Forall2.nil), by decide⟩
+  · rw [if_pos (by decide)]
+    show Bkl.merge (.int 1) (.int 5) = .ok (.int 5)
+    rw [merge_scalar _ _ rfl]; rfl
+  · rw [if_neg (by decide)]
+
+example : (∀ p ∈ [C02_patch], matchDirective p.data = none) ∧
+    C02_st.docs.map (·.1) = C02_st₂.docs.map (·.1) ∧ C02_st.known = C02_st₂.known ∧
+    runMerges C02_st [C02_patch] = .ok C02_st' ∧ runMerges C02_st₂ [C02_patch] = .ok C02_st₂' ∧
+    C02_st.docs[0]? = C02_st₂.docs[0]? ∧ C02_st.docs[1]? ≠ C02_st₂.docs[1]? := by
+  refine ⟨by decide, by decide, by decide, ?_, ?_, by decide, by decide⟩
+  · rw [runMerges_cons, C02_run_example]; rfl
+  · rw [runMerges_cons, C02_run_example₂]; rfl
+
+example : SameSelections C02_st C02_st₂ [C02_patch] ∧
+    C02_st.docs.length = C02_st₂.docs.length :=
+  ⟨⟨by decide, fun _ _ _ _ => trivial⟩, rfl⟩
+
+/-! ## C02_ids_unique_preserved -/
+
+theorem C02_append_id {st : PState} {patch : Doc} {newId : String} {body : Val}
+    (h : selectionOf st patch = .append newId body) :
+    newId = patch.id ∨ newId = patch.id ++ "|matchnull" := by
+  unfold selectionOf at h
+  cases hmd : matchDirective patch.data with
+  | none =>
+    rw [hmd] at h
+    simp only at h
+    split at h
+    · cases h
+    · cases h; exact Or.inl rfl
+  | some pb =>
+    obtain ⟨pat, b⟩ := pb
+    rw [hmd] at h
+    simp only at h
+    split at h
+    · cases h; exact Or.inr rfl
+    · split at h
+      · cases h
+      · split at h <;> cases h
+
+/-- Distinct ids stay distinct when the patch's id (and `id|matchnull`) is fresh. -/
+theorem C02_ids_unique_preserved {st st' : PState} {patch : Doc}
+    (hm : mergeDocument st patch = .ok st') (hnd : (st.docs.map (·.1)).Nodup)
+    (hf₁ : patch.id ∉ st.docs.map (·.1))
+    (hf₂ : patch.id ++ "|matchnull" ∉ st.docs.map (·.1)) : (st'.docs.map (·.1)).Nodup := by
+  rw [C02_ids hm]
+  cases hs : selectionOf st patch with
+  | noMatch => simpa [Selection.newIds] using hnd
+  | merge targets body => simpa [Selection.newIds] using hnd
+  | append newId body =>
+    simp only [Selection.newIds]
+    rw [List.nodup_append]
+    refine ⟨hnd, by simp, ?_⟩
+    intro a ha b hb
+    rw [List.mem_singleton] at hb
+    subst hb
+    intro hab
+    subst hab
+    rcases C02_append_id hs with h | h
+    · exact hf₁ (h ▸ ha)
+    · exact hf₂ (h ▸ ha)
+
+example : mergeDocument C02_st C02_patch = .ok C02_st' ∧ (C02_st.docs.map (·.1)).Nodup ∧
+    C02_patch.id ∉ C02_st.docs.map (·.1) ∧
+    C02_patch.id ++ "|matchnull" ∉ C02_st.docs.map (·.1) :=
+  ⟨C02_run_example, by decide, by decide, by decide⟩
+
 end Bkl
